@@ -16,6 +16,7 @@ inductive Err where
   | assertionError | notImplemented | bareException | unicodeError
   | unexpectedDER | malformedPoint | malformedSignature | unknownCurve | badSignature
   | invalidCurve | invalidSharedSecret | noKey
+  | outOfFuel     -- not a Python exception: a fuel-bounded model loop ran out of fuel (proved unreachable, C14)
   deriving DecidableEq, Repr, Inhabited
 
 def Err.name : Err → String
@@ -35,6 +36,7 @@ def Err.name : Err → String
   | .malformedSignature => "MalformedSignature" | .unknownCurve => "UnknownCurveError"
   | .badSignature => "BadSignatureError" | .invalidCurve => "InvalidCurveError"
   | .invalidSharedSecret => "InvalidSharedSecretError" | .noKey => "NoKeyError"
+  | .outOfFuel => "OutOfFuel(model)"
 
 /-- big-endian, fixed width (`int.to_bytes(k,"big")` without the overflow check) -/
 def toBE : Nat → Nat → Bytes
